@@ -369,8 +369,10 @@ class DependenciesHelper:
             return was_excluded
 
         # link_whole targets are already part of other targets, exclude them all.
+        # Only the library itself: the pc file it is associated with may also
+        # stand for other libraries that still have to be required.
         for t in self.link_whole_targets:
-            _add_exclude(t)
+            exclude.add(t.get_id())
 
         # Mypy thinks these overlap, but since List is invariant they don't,
         # `List[str]`` is not a valid input to `List[str | BuildTarget]`.
